@@ -170,7 +170,7 @@ def run(tier, seed, t0):
         tf = os.path.join(work, "trace.ndjson")
         core.write_ndjson(tf, rows)
         exp = core.validate("Trace_CQ", "Expect", tf, work, constants=VC(), timeout=3000)["rows"]
-        rejected, clauses = [], Counter()
+        rejected, clauses = core.track([]), Counter()
         max_ok = 0.0
         for t, o, e in zip(rows, obs, exp):
             clause, dev = judge(t, o, e)
